@@ -36,6 +36,7 @@ type SeqProfile struct {
 	PSchemaIn float64 // between two operations of an open transaction an index is created or dropped
 	PBulkDel  float64 // a step deletes a run of value-less prologue rows in block 0 (Count drops below the highest offset's block)
 	SortFirst bool    // create the sorted indexes before any data
+	Many      int     // rows with values inserted right after the prologue (a sorted index / selection of some size)
 	SortAt    int     // (when not SortFirst) the step at which the sorted indexes are created over the data that exists by then
 	IdxFirst  bool    // create the bitmap indexes and triggers before any data, in the order listed
 	PIdxStep  float64 // probability that a schema step is an index create / drop (else the kind is drawn uniformly)
@@ -443,6 +444,24 @@ func RunSeq(seed int64, p SeqProfile) (out []Ev) {
 		}
 	}
 	g.prologue()
+	if p.Many > 0 && !p.Keyed {
+		var cols []ColDesc
+		for _, d := range g.P.Cols {
+			if d.Kind != "key" {
+				cols = append(cols, d)
+			}
+		}
+		g.P.Txn("m", func(x *Tx) error {
+			for i := 0; i < p.Many; i++ {
+				var ws []W
+				for _, d := range cols {
+					ws = append(ws, W{d.Name, "put", g.value(d, "put")})
+				}
+				x.Insert(ws, false)
+			}
+			return nil
+		})
+	}
 	g.dump()
 	if p.PSnap > 0 && g.rnd.Intn(6) == 0 {
 		// a failed first insert, then a snapshot at once
